@@ -154,40 +154,76 @@ theorem missing_key_refused (c : Cells ℝ θ) (d : DArg ℝ) (es : List (θ × 
   unfold nnCells
   simp [hn, missing_key_validate es _ _ hmem hmiss]
 
-/-- **wrong_length_refused** (list and JAX-array targets).  A target sequence whose length is not
-    the number of time points is refused with `ValueError`.
-    Full strength would quantify over every sequence kind; NumPy arrays and tuples are NOT
-    length-checked by the code (`wrong_length_counterexample`). -/
-theorem wrong_length_refused_partial (c : Cells ℝ θ) (d : DArg ℝ) (kind : SeqKind)
-    (hkind : kind.recognized = true) (vs : List ℝ) (hn : c.times.length ≠ 0)
+/-- **wrong_length_refused.**  A target sequence of ANY sized form (list, JAX array, tuple, NumPy
+    array) whose length is not the number of time points is refused with `ValueError` — too long
+    and too short alike.  (Before the repair of /repo this held for lists and JAX arrays only.) -/
+theorem wrong_length_refused (c : Cells ℝ θ) (d : DArg ℝ) (kind : SeqKind)
+    (vs : List ℝ) (hn : c.times.length ≠ 0)
     (hlen : vs.length ≠ (uniqueSorted c.times).length) :
     nnCells c d (.seq kind vs) = .error .wrongLength := by
   unfold nnCells
-  simp [hn, wrong_length_validate kind hkind vs _ hlen]
+  simp [hn, wrong_length_validate kind vs _ hlen]
 
-/-- Too short NumPy arrays / tuples are refused as well, but late and with `IndexError`. -/
-theorem wrong_length_short_unrecognized (kind : SeqKind) (vs : List ℝ) (t : θ) (k : Nat) (avg : ℝ)
-    (hk : vs.length ≤ k) : targetCount (.seq kind vs : NormArg ℝ θ) t k avg = .error .indexError := by
-  simp [targetCount, List.getElem?_eq_none hk]
+/-- After the length check `normalize[rank]` is always in range: no call ends in `IndexError`. -/
+theorem index_error_unreachable (c : Cells ℝ θ) (d : DArg ℝ) (norm : NormArg ℝ θ) :
+    nnCells c d norm ≠ .error .indexError := by
+  intro h
+  unfold nnCells at h
+  by_cases hn : c.times.length = 0
+  · simp [hn] at h
+  · simp only [hn, if_false] at h
+    cases hv : validateNormalize norm (uniqueSorted c.times) with
+    | error e =>
+      simp only [hv, except_throw] at h
+      injection h with h
+      subst h
+      cases norm with
+      | off => simp [validateNormalize] at hv
+      | avg => simp [validateNormalize] at hv
+      | dict es => simp only [validateNormalize] at hv; split at hv <;> simp at hv
+      | seq k vs => simp only [validateNormalize] at hv; split at hv <;> simp at hv
+    | ok u =>
+      simp only [hv, except_pure, except_throw] at h
+      cases hd : (if norm.isOn = true then validateD c.times.length d else Except.ok ()) with
+      | error e =>
+        simp only [hd] at h
+        injection h with h
+        subst h
+        cases hon : norm.isOn with
+        | false => simp [hon] at hd
+        | true =>
+          simp only [hon, if_true] at hd
+          cases d with
+          | none => simp [validateD] at hd
+          | scalar v => simp only [validateD] at hd; split at hd <;> simp at hd
+          | perCell vs =>
+            simp only [validateD] at hd
+            split at hd
+            · simp at hd
+            · split at hd <;> simp at hd
+      | ok u' =>
+        simp only [hd] at h
+        obtain ⟨k, hk, hg⟩ := nnLoop_err_position c d norm _ _ 0 _ _ h
+        obtain ⟨kind, vs, rfl, hlen⟩ := groupVals_indexError c d _ _ _ _ hg
+        simp only [validateNormalize] at hv
+        split at hv
+        · simp at hv
+        · rename_i hl
+          have : vs.length = (uniqueSorted c.times).length := by simpa using hl
+          omega
 
-/-- **wrong_length_counterexample.**  Two cells at one time point, a tuple of TWO targets: accepted,
-    the surplus entry is ignored (`n_t = N_t = 2`, so the factor is 1 and the distance `|0 − 1| = 1`). -/
-theorem wrong_length_counterexample :
-    validateNormalize (.seq .numpyArray [10, 20, 30] : NormArg ℝ ℤ) [0, 1] = .ok ()
-    ∧ validateNormalize (.seq .tuple [2, 7] : NormArg ℝ ℤ) (uniqueSorted [0, 0]) = .ok ()
-    ∧ (uniqueSorted ([0, 0] : List ℤ)).length = 1 := by
-  refine ⟨?_, ?_, by decide⟩ <;> simp [validateNormalize, SeqKind.recognized]
-
-/-- The same witness end to end: cells `0` and `1` (1-D) at one time point, `d = 1`, the tuple
-    `(2, 7)` as targets — the call succeeds with `[1, 1]`. -/
-theorem wrong_length_counterexample_run :
-    nnCells (⟨[[0], [1]], [0, 0]⟩ : Cells ℝ ℤ) (.scalar 1) (.seq .tuple [2, 7]) = .ok [1, 1] := by
-  have hu : uniqueSorted ([0, 0] : List ℤ) = [0] := by decide
-  have hg : groupIdx ([0, 0] : List ℤ) 0 = [0, 1] := by decide
-  simp only [nnCells, hu, List.length_cons, List.length_nil, validateNormalize, SeqKind.recognized,
-    NormArg.isOn, validateD, nnLoop, groupVals, hg, targetCount, dIsZero]
-  norm_num [scatterMap, nnOf, minD, euclid, sqDist, normFactor, dAt]
-  simp [List.replicate, List.set]
+/-- The former counterexamples are now refused (regression witnesses, replayed by the harness):
+    a NumPy array of three targets for two time points, and the tuple `(2, 7)` for the two cells
+    `0`, `1` at ONE time point. -/
+theorem wrong_length_witnesses_refused :
+    validateNormalize (.seq .numpyArray [10, 20, 30] : NormArg ℝ ℤ) [0, 1] = .error .wrongLength
+    ∧ nnCells (⟨[[0], [1]], [0, 0]⟩ : Cells ℝ ℤ) (.scalar 1) (.seq .tuple [2, 7]) = .error .wrongLength := by
+  constructor
+  · simp [validateNormalize]
+  · apply wrong_length_refused
+    · simp
+    · have hu : uniqueSorted ([0, 0] : List ℤ) = [0] := by decide
+      simp [hu]
 
 /-- **norm_density_scales.**  `mle(out) = mle(nn) + log(N_t / n_t)`: the normalisation multiplies
     the nearest-neighbour MLE density by exactly `N_t / n_t` (direction and exponent `1/d`). -/
@@ -206,30 +242,64 @@ theorem n_obs_eq_default (times : List θ) (norm : NormArg ℝ θ) (h : norm = .
     avgCellCount times norm = .ok ((times.length : ℝ) / ((uniqueSorted times).length : ℝ)) := by
   rcases h with rfl | rfl <;> rfl
 
-/-- **n_obs_eq** (list / JAX array): the mean of the targets. -/
-theorem n_obs_eq_seq (times : List θ) (k : SeqKind) (hk : k.recognized = true) (vs : List ℝ) :
+/-- **n_obs_eq** (list, JAX array, tuple, NumPy array with one target per time point): the mean
+    of the targets. -/
+theorem n_obs_eq_seq (times : List θ) (k : SeqKind) (vs : List ℝ)
+    (hlen : vs.length = (uniqueSorted times).length) :
     avgCellCount times (.seq k vs) = .ok (lsum vs / (vs.length : ℝ)) := by
-  simp [avgCellCount, hk]
+  simp [avgCellCount, validateNormalize, hlen]
 
-/-- NumPy arrays and tuples are refused (late) with `ValueError("Unrecognized type")`. -/
-theorem n_obs_unrecognized (times : List θ) (k : SeqKind) (hk : k.recognized = false) (vs : List ℝ) :
-    avgCellCount times (.seq k vs) = .error .unrecognized := by
-  simp [avgCellCount, hk]
+/-- … and a wrong length is refused here as well. -/
+theorem n_obs_seq_wrong_length_refused (times : List θ) (k : SeqKind) (vs : List ℝ)
+    (hlen : vs.length ≠ (uniqueSorted times).length) :
+    avgCellCount times (.seq k vs) = .error .wrongLength := by
+  simp [avgCellCount, validateNormalize, hlen]
 
-/-- **n_obs_eq** (dict), partial: when the dict has exactly one entry per time point, `n_obs` is the
-    mean of its values.  Full strength (any dict covering the time points) fails:
-    `n_obs_eq_dict_counterexample`. -/
-theorem n_obs_eq_dict_partial (times : List θ) (es : List (θ × ℝ))
-    (h : es.length = (uniqueSorted times).length) :
-    avgCellCount times (.dict es) = .ok (lsum (es.map (·.2)) / (es.length : ℝ)) := by
-  simp [avgCellCount, h]
+/-- **n_obs_eq** (dict), full strength: for every dict that covers the time points of the data —
+    extra keys or not — `n_obs` is the average over the time points present of their targets. -/
+theorem n_obs_eq_dict (times : List θ) (es : List (θ × ℝ))
+    (hcov : ∀ t ∈ times, ∃ e ∈ es, e.1 = t) :
+    avgCellCount times (.dict es)
+      = .ok (lsum ((uniqueSorted times).map (dictVal es)) / ((uniqueSorted times).length : ℝ)) := by
+  have hall : ((uniqueSorted times).all fun t => es.any fun e => decide (e.1 = t)) = true := by
+    rw [List.all_eq_true]
+    intro t ht
+    obtain ⟨e, he, het⟩ := hcov t ((mem_uniqueSorted t times).mp ht)
+    rw [List.any_eq_true]
+    exact ⟨e, he, by simpa using het⟩
+  simp [avgCellCount, validateNormalize, hall]
 
-/-- Times `[0, 0]`, targets `{0: 30, 9: 1000}`: `n_obs = 1030`, not the average target `30`. -/
-theorem n_obs_eq_dict_counterexample :
-    avgCellCount ([0, 0] : List ℤ) (.dict [(0, (30 : ℝ)), (9, 1000)]) = .ok 1030 := by
+/-- Entries for time stamps that do not occur in the data do not influence `n_obs`. -/
+theorem n_obs_dict_extra_keys_irrelevant (times : List θ) (es extra : List (θ × ℝ))
+    (hcov : ∀ t ∈ times, ∃ e ∈ es, e.1 = t) :
+    avgCellCount times (.dict (es ++ extra)) = avgCellCount times (.dict es) := by
+  have hcov' : ∀ t ∈ times, ∃ e ∈ es ++ extra, e.1 = t := by
+    intro t ht
+    obtain ⟨e, he, het⟩ := hcov t ht
+    exact ⟨e, List.mem_append_left _ he, het⟩
+  rw [n_obs_eq_dict times _ hcov', n_obs_eq_dict times _ hcov]
+  congr 3
+  apply List.map_congr_left
+  intro t ht
+  obtain ⟨e, he, het⟩ := hcov t ((mem_uniqueSorted t times).mp ht)
+  have hsome : (es.find? fun e => decide (e.1 = t)).isSome = true := by
+    rw [List.find?_isSome]
+    exact ⟨e, he, by simpa using het⟩
+  obtain ⟨e', he'⟩ := Option.isSome_iff_exists.mp hsome
+  simp [dictVal, List.find?_append, he']
+
+/-- A dict lacking a time point of the data is refused (`ValueError`) here as well. -/
+theorem n_obs_dict_missing_key_refused (times : List θ) (es : List (θ × ℝ)) (t : θ) (ht : t ∈ times)
+    (hmiss : ∀ e ∈ es, e.1 ≠ t) :
+    avgCellCount times (.dict es) = .error .missingKey := by
+  simp [avgCellCount, missing_key_validate es _ t ((mem_uniqueSorted t times).mpr ht) hmiss]
+
+/-- The former counterexample (times `[0, 0]`, targets `{0: 30, 9: 1000}`) now gives the average
+    target `30` (regression witness, replayed by the harness). -/
+theorem n_obs_dict_witness :
+    avgCellCount ([0, 0] : List ℤ) (.dict [(0, (30 : ℝ)), (9, 1000)]) = .ok 30 := by
   have h : uniqueSorted ([0, 0] : List ℤ) = [0] := by decide
-  simp only [avgCellCount, h, List.map, lsum, List.length, except_pure]
-  norm_num
+  simp [avgCellCount, validateNormalize, h, dictVal, lsum]
 
 /-! ### the estimator: `ls`, explicit distances, the two ways of passing times -/
 
@@ -277,6 +347,6 @@ theorem cells_of_merged (key : ℝ → θ) (n f : Nat) (rows : List (List ℝ)) 
 example : (groupIdx ([0, 5, 0, 0] : List ℤ) 0) = [0, 2, 3] := by decide
 example : uniqueSorted ([2, 0, 2, 1, 0] : List ℤ) = [0, 1, 2] := by decide
 example : (0 : ℝ) < 1 ∧ (0 : ℝ) < 2 ∧ (0 : ℝ) < 3 ∧ (2 : ℝ) ≠ 0 := by norm_num
-example : SeqKind.recognized .list = true ∧ SeqKind.recognized .numpyArray = false := ⟨rfl, rfl⟩
+example : ∀ t ∈ ([0, 0] : List ℤ), ∃ e ∈ [((0 : ℤ), (30 : ℝ)), (9, 1000)], e.1 = t := by decide
 
 end Mellon.C14
